@@ -2,6 +2,8 @@
 from .. import boot  # noqa: F401
 import math
 
+import numpy as np
+
 from gym_gridverse.envs import visibility_functions as visibility_fs
 from gym_gridverse.geometry import Area, Position
 from gym_gridverse.grid import Grid
@@ -37,6 +39,10 @@ def check_ray(ctx, ray, origin, area, label, payload):
         ctx.violation('rays', 'ray.empty', f'{label}: empty ray', 'fan_case', payload)
         return
     cells = [(p.y, p.x) for p in ray]
+    odd = [c for c in cells if not all(isinstance(v, (int, np.integer)) and not isinstance(v, bool) for v in c)]
+    if odd:
+        ctx.violation('rays', 'ray.non_integer_cell', f'{label}: ray contains cells with non-integer coordinates {odd[:3]!r} (cells are '
+                      f'used as grid indices)', 'fan_case', payload)
     if cells[0] != (origin.y, origin.x):
         ctx.violation('rays', 'ray.start', f'{label}: ray starts at {cells[0]} not at the origin {(origin.y, origin.x)}', 'fan_case', payload)
     out = [c for c in cells if not (area.ymin <= c[0] <= area.ymax and area.xmin <= c[1] <= area.xmax)]
@@ -77,7 +83,8 @@ def fan_case(ctx, area, origin, fancy=True, full=True):
 
 
 def as_cells(rays):
-    return [[(p.y, p.x) for p in ray] for ray in rays]
+    # (value, is-integer) per coordinate: 6.0 == 6 in Python, but only the integer can index a grid
+    return [[(p.y, p.x, isinstance(p.y, (int, np.integer)), isinstance(p.x, (int, np.integer))) for p in ray] for ray in rays]
 
 
 def clear_caches():
@@ -102,6 +109,16 @@ def cache_history(ctx, queries, rng):
         if rep == 1:
             clear_caches()
         for qi, (origin, area) in enumerate(order + order[: len(order) // 2]):
+            if qi % 4 == rep:
+                # the same origin written with float / numpy coordinates (equal and hash-equal to the integer one) asked first:
+                # whatever ends up in the cache for it is what the integer question gets
+                alias = Position(float(origin.y), float(origin.x)) if qi % 8 < 4 else Position(np.int64(origin.y), np.int64(origin.x))
+                oka, ra = call_real(rt.cached_compute_rays_fancy, alias, area)
+                ctx.hit('cache.aliased_origin')
+                if oka and (origin, area) in truth and [[c[:2] for c in r] for r in as_cells(ra)] != [[c[:2] for c in r] for r in truth[(origin, area)]]:
+                    ctx.violation('rays', 'cache.differs', f'cached fan for origin {alias!r} area {area} differs from the uncached '
+                                  f'computation for the equal origin {origin!r}', 'fan_case',
+                                  {'area': [[area.ymin, area.ymax], [area.xmin, area.xmax]], 'origin': [origin.y, origin.x], 'fancy': True})
             if qi % 5 == rep:
                 # the 1-degree fan of the same origin and area, queried through its own cached wrapper, before or after
                 ok1, r1 = call_real(rt.cached_compute_rays, origin, area)
@@ -234,6 +251,18 @@ def run(ctx):
             queries.append((Position(y, x), Area((1, h), (1, w))))
             queries.append((Position(y, x), Area((y - h + 1, y), (x - w + 1, x))))
         cache_history(ctx, queries, rng)
+        # origins / areas whose printed coordinates run together to the same digits ((1,12) and (11,2); rows -1..12 and
+        # -11..2): whatever the caches key on, these are different questions
+        confusable = []
+        big = Area((0, 11), (0, 12))
+        for (p, q) in rng.sample([((1, 12), (11, 2)), ((1, 10), (11, 0)), ((1, 11), (11, 1))], ctx.pick(1, 3)):
+            confusable += [(Position(*p), big), (Position(*q), big)]
+        confusable += [(Position(0, 0), Area((-1, 12), (-1, 1))), (Position(0, 0), Area((-11, 2), (-1, 1))),
+                       (Position(0, 0), Area((-1, 0), (-1, 12))), (Position(0, 0), Area((-1, 0), (-11, 2))),
+                       (Position(1, 1), Area((0, 1), (-2, 13))), (Position(1, 1), Area((0, 1), (-21, 3)))]
+        if ctx.mine(1):
+            cache_history(ctx, confusable, rng)
+            ctx.hit('cache.confusable_keys', len(confusable))
         ctx.extra.setdefault('exhaustive', True)
 
 
